@@ -124,3 +124,86 @@ func (l *Ledger) CoinMismatches(e *types.AppState) []string {
 	}
 	return out
 }
+
+// BaseParts splits the base-coin grand total of an export into its components (diagnostics).
+func BaseParts(e *types.AppState) map[string]*big.Int {
+	p := map[string]*big.Int{}
+	add := func(k string, s string) {
+		v, ok := new(big.Int).SetString(s, 10)
+		if !ok {
+			return
+		}
+		if p[k] == nil {
+			p[k] = new(big.Int)
+		}
+		p[k].Add(p[k], v)
+	}
+	for _, a := range e.Accounts {
+		for _, b := range a.Balance {
+			if b.Coin == 0 {
+				add("balances", b.Value)
+			}
+		}
+	}
+	for _, c := range e.Candidates {
+		for _, s := range c.Stakes {
+			if s.Coin == 0 {
+				add("stakes", s.Value)
+			}
+		}
+		for _, s := range c.Updates {
+			if s.Coin == 0 {
+				add("updates", s.Value)
+			}
+		}
+	}
+	for _, w := range e.Waitlist {
+		if w.Coin == 0 {
+			add("waitlist", w.Value)
+		}
+	}
+	for _, f := range e.FrozenFunds {
+		if f.Coin == 0 {
+			add("frozen", f.Value)
+		}
+	}
+	for _, pl := range e.Pools {
+		if pl.Coin0 == 0 {
+			add("pools", pl.Reserve0)
+		}
+		for _, o := range pl.Orders {
+			if !o.IsSale && pl.Coin0 == 0 {
+				add("orders", o.Volume0)
+			}
+		}
+	}
+	for _, c := range e.Coins {
+		if c.Crr > 0 {
+			add("reserves", c.Reserve)
+		}
+	}
+	for _, v := range e.Validators {
+		add("accum", v.AccumReward)
+	}
+	add("slashed", e.TotalSlashed)
+	return p
+}
+
+// DiffParts describes how the components changed.
+func DiffParts(a, b map[string]*big.Int) string {
+	s := ""
+	for _, k := range []string{"balances", "stakes", "updates", "waitlist", "frozen", "pools", "orders", "reserves", "accum", "slashed"} {
+		x, y := orZero(a[k]), orZero(b[k])
+		if x.Cmp(y) != 0 {
+			s += fmt.Sprintf(" %s %s", k, signed(new(big.Int).Sub(y, x)))
+		}
+	}
+	return s
+}
+
+func signed(v *big.Int) string {
+	if v.Sign() > 0 {
+		return "+" + v.String()
+	}
+	return v.String()
+}
